@@ -9,7 +9,7 @@ PROP = "C20"
 CONFIG = worlda.base_config(
     rule="seeded programs with one POP3 session (STAT, LIST, LIST n, UIDL, UIDL n, RETR, TOP n k, DELE, repeated DELE, RSET, NOOP, invalid numbers, QUIT or an "
     "abrupt disconnect) interleaved with 1-2 IMAP sessions that APPEND to and EXPUNGE from INBOX (often the last message, followed by a delivery that "
-    "re-uses its MH number) and, with lowered pack knobs, make the folder get renumbered; message bodies with dot-lines, missing final newline, CRLF. "
+    "re-uses its MH number), RENAME the INBOX away and, with lowered pack knobs, make the folder get renumbered; message bodies with dot-lines, missing final newline, CRLF. "
     "Oracle: numbers/UIDL/sizes never change during the session, UIDL = IMAP UID, RETR n is -ERR or exactly the snapshot message (token and bytes equal "
     "IMAP BODY[]), announced = delivered octets, dot-stuffed termination, QUIT removes exactly the marked messages, RSET/drop removes nothing. "
     "non-trivial = a POP3 session ran; distinct = op signatures",
@@ -83,8 +83,14 @@ def generate(seed, tier, index, kf):
                 ops.append({"actor": "agent", "op": "deliver", "mbox": "inbox", "count": 1, "toks": [tok], "unseen": True, "shape": r.choice(SHAPES)})
             elif y < 0.8:
                 ops.append({"actor": "driver", "op": "wait", "dt": r.choice((1.0, 6.0, 15.0, 25.0))})
-            elif y < 0.9:
+            elif y < 0.87:
                 ops.append({"s": s, "op": "noop"})
+            elif y < 0.9 and sum(1 for o in ops if o.get("op") == "rename") < 2:
+                # RENAME INBOX moves every message away and leaves the INBOX empty - under an open POP3 session, too
+                ops.append({"s": s, "op": "rename", "name": "inbox", "to": f"old{len(ops)}"})
+                sel[s] = False
+                ops.append({"s": s, "op": "select", "mbox": "inbox", "examine": False})
+                sel[s] = True
             else:
                 ops.append({"s": s, "op": "fetch", "uid": True, "set": {"all": True}, "items": "(UID BODY.PEEK[])"})
     if popen:
